@@ -100,6 +100,9 @@ func (r *Run) Emit(caseLine, observed, oracleFail, key string, nontrivial bool, 
 	}
 }
 
+// Trunc shortens s to n bytes.
+func Trunc(s string, n int) string { return trunc(s, n) }
+
 func trunc(s string, n int) string {
 	if len(s) > n {
 		return s[:n] + "…"
